@@ -415,6 +415,20 @@ class TransparencyOracle:
                 return self._violate(f"{self.prop}/discard/state-disturbed", reason=exp.reason, **d)
             return
         # forward
+        if a.meta.get("held"):
+            # an addon of the harness took this message and will re-send the copy itself (C02 hold inspector):
+            # the original is dropped by design, nothing to match here
+            for e in a.emissions:
+                try:
+                    pl = L.socks_unwrap(e.raw)[1] if e.dst == v.addr else e.raw
+                    pe = L.parse_datagram(pl)
+                    same_dir = (e.dst == v.addr) == (exp.direction == "in")
+                    if pe.msg_key == ("Fixed", 0xFB) and same_dir and pe.pid == exp.parsed.pid:
+                        continue   # the PacketAck carrying a dropped packet's acks travels in that packet's ID slot
+                except Exception:
+                    pass
+                self._note_proxy_originated(e)
+            return
         self.forwarded += 1
         if a.escaped is not None:
             return self._violate(f"{self.prop}/forward/exception-escaped", name=exp.name, exc=repr(a.escaped))
